@@ -64,6 +64,11 @@ CLAIMS = {
    design_ref="DESIGN.md section 5 C13, section 8",
    note=COMMON_NOTE + "Temporary stat/open errors cannot be produced as root and are not exercised; -owner sender rewriting and the environment handed to programs are not modelled.",
    technique="Coq proof (structural induction over candidates and instruction lines) + extracted-model differential tie to the real qmail-local in generated home directories"),
+ "C08": dict(category="proof",
+   text="Theorems about the command handlers of the session model, for every state, argument and configuration: DATA hands a message to the queue only inside a transaction with at least one accepted recipient, with exactly the current sender and recipients in order, and is refused with 503 otherwise; an accepted MAIL starts a fresh transaction, a 555 MAIL changes nothing; HELO, EHLO, RSET (and a completed DATA) end the transaction; no other verb touches the envelope; RCPT is accepted iff inside a transaction, the address parses (< 900 bytes), the sender is not on the bad-sender list, and relaying is enabled (suffix appended) or the IP-literal-substituted address passes rcpthosts; rcpthosts = no list / no @ / the lower-cased domain or a dot-suffix listed case-insensitively or in the compiled extra list. Tied on every run to the real qmail-smtpd (stand-in queue recording every submission) on generated configurations x command sequences incl. morercpthosts.cdb built by the real qmail-newmrh, with an independent Python reference as oracle.",
+   design_ref="DESIGN.md section 5 C08, section 8",
+   note=COMMON_NOTE + "The statement 'recipients are exactly those answered 250 since the most recent accepted MAIL' follows from the per-handler theorems by composition over the command list; that composition is not a separate theorem. ipme is an oracle (127.0.0.1, 0.0.0.0 in the sandbox); constmap hashing and cdb lookup are abstracted to case-insensitive / exact membership (exercised through the real code).",
+   technique="Coq proof (case analysis of the command handlers, suffix-list characterisation) + extracted-model differential tie to the real qmail-smtpd with a stand-in queue"),
 }
 
 REASON_PENDING = "not yet claimed: model/correspondence for this property is still being built (DESIGN.md section 7); no check is registered for it"
